@@ -324,11 +324,13 @@ def c14_r7(ctx):
 MUST_CONSULT = {
     # (function, parameter): why every result-producing path has to look at it
     ("reading.SegmentReader.column_reader", "reverse"): "the sort keys (and the default key of a segment without the column) flip with it",
+    ("reading.SegmentReader.column_reader", "translate"): "a segment without the column file must hand out the field-level default (from_column_value of the column "
+                                                          "default), like every other document that supplies no value",
 }
 
 
 @rule("C14", "R8", "K9", "ordering flags reach every path; a clamped page number replaces the raw one",
-      min_instances=3,
+      min_instances=3, also=("C08",),
       clause="On every path of SegmentReader.column_reader / MultiReader.column_reader that returns a reader, the `reverse` "
              "parameter is read (tested or passed on) -- also on the path for a segment that lacks the column file; in "
              "ResultsPage.__init__ the requested page number is not read again after it was clamped into self.pagenum "
